@@ -140,6 +140,45 @@ def pysnmp_syntax_ok(cls, syn, parent_name=None, inherited=None):
 
 class Refinements(object):
     name = 'refinements'
+
+    def named_bits(self, which):
+        """An object whose SYNTAX narrows a named BITS type to some of its bits: NamedBits { b1(1) }."""
+        full = [('b0', 0), ('b1', 1), ('b-9', 9)]
+        subset = [[('b1', 1)], [('b0', 0), ('b-9', 9)], list(full)][which]
+        decls = ctx() + [{'k': 'tc', 'name': 'NamedBits', 'display': None, 'status': 'current', 'descr': 'd', 'syntax': ('bits', full)},
+                         obj('inlineObj', ('ref', 'NamedBits', ('enum', subset)), 1)]
+        mod = refir.finish_module({'name': 'TEST-MIB', 'decls': decls})
+        texts, out = compile_both([mod], ['TEST-MIB'])
+        sig = 'C05|refine|NamedBits|bit-subset'
+        vs = []
+        res, written = out['json']
+        if res.get('TEST-MIB') != 'compiled':
+            vs.append(('%s|json|not-compiled' % sig, '%r\n%s' % (getattr(res.get('TEST-MIB'), 'error', None), texts['TEST-MIB'])))
+        else:
+            got = json.loads(written['TEST-MIB']).get('inlineObj', {}).get('syntax', {})
+            pairs = got.get('bits') or (got.get('constraints') or {}).get('enumeration')   # the key layout is not the property's subject
+            if got.get('type') != 'NamedBits' or pairs != dict(subset):
+                vs.append(('%s|json|bits-differ' % sig, '%r vs written %r\n%s' % (got, subset, texts['TEST-MIB'])))
+        res, written = out['pysnmp']
+        if res.get('TEST-MIB') != 'compiled':
+            vs.append(('%s|pysnmp|not-compiled' % sig, '%r\n%s' % (getattr(res.get('TEST-MIB'), 'error', None), texts['TEST-MIB'])))
+        else:
+            ns, err = pysnmp_rec.run_module(written['TEST-MIB'], pysnmp_rec.RecBuilder())
+            o = ns.get('inlineObj') if ns else None
+            cls = pysnmp_rec.syntax_of(o) if isinstance(o, pysnmp_rec.Node) else None
+            if err or not isinstance(cls, type):
+                vs.append(('%s|pysnmp|does-not-execute' % sig, '%r\n%s' % (err, texts['TEST-MIB'])))
+            else:
+                nv = pysnmp_rec.named_values_of(cls)
+                if 'NamedBits' not in cls.chain() or nv is None or dict(nv) != dict(subset):
+                    vs.append(('%s|pysnmp|named-bits-differ' % sig, 'chain %r namedValues %r vs %r' % (cls.chain(), nv, subset)))
+                inh = pysnmp_rec.constraints_of(ns['NamedBits']) if isinstance(ns.get('NamedBits'), type) else []
+                own = pysnmp_rec.constraints_of(cls)[len(inh):]
+                if own:
+                    vs.append(('%s|pysnmp|value-constraint-on-a-bit-string' % sig,
+                               'a BITS value is an octet string: the bit POSITIONS %r were turned into a constraint on its value: %r\n%s' % (
+                                   [n for _, n in subset], own, texts['TEST-MIB'])))
+        return 'x', vs, 2
     describe = ('type word x refinement allowed by the grammar (range / SIZE lists of 1..3 alternatives over an 8-item '
                 'alphabet with decimal, negative, 64-bit, hex and binary literals; 4 enumerations; 3 BITS lists; none) '
                 'x placement (OBJECT-TYPE SYNTAX, type assignment, TEXTUAL-CONVENTION, refinement of a named type)')
@@ -153,6 +192,7 @@ class Refinements(object):
         out.append({'w': 'NamedInt', 'r': 'range'})
         out.append({'w': 'NamedInt', 'r': 'enum'})
         out.append({'w': 'NamedStr', 'r': 'size'})
+        out.append({'w': 'NamedBits', 'r': 'bitsubset'})
         return out
 
     def subs(self, block, tier):
@@ -170,6 +210,9 @@ class Refinements(object):
         elif r == 'bits':
             for i in range(len(BITSETS)):
                 yield ['bits', i]
+        elif r == 'bitsubset':
+            for i in range(3):
+                yield ['bitsubset', i]
 
     def cases(self, block, tier):
         for sub in self.subs(block, tier):
@@ -186,6 +229,8 @@ class Refinements(object):
         else:
             rsub = None
         decls = ctx()
+        if w == 'NamedBits':
+            return self.named_bits(sub[1])
         if w == 'BITS':
             syn = ('bits', BITSETS[sub[1]])
         elif w == 'NamedInt':
